@@ -195,7 +195,11 @@ theorem resolveConflict_ne_done (R : Renamer σ) (r : Run σ) (dir : APath) (src
         · split <;> simp [outcomeOfErr_ne_done]
       · split
         · simp
-        · split <;> simp [outcomeOfErr_ne_done]
+        · simp
+        · simp
+        · split
+          · simp
+          · split <;> simp [outcomeOfErr_ne_done]
 
 theorem secondPass_ne_done (R : Renamer σ) (s : Strategy) :
     ∀ (bl : List Move) (r : Run σ) (as : List Answer), (secondPass R s bl r as).2 ≠ some .done := by
